@@ -309,15 +309,23 @@ func qdScenario(cs qdCase) *mc.Scenario {
 				return m
 			}
 			checkGauge := func(when string) {
+				// the callers actually blocked right now (ground truth, not the reference queue: if the
+				// reference is out of step because of some other defect, the gauge is still judged fairly)
+				blocked := 0
+				for _, w := range ws {
+					if !w.returned {
+						blocked++
+					}
+				}
 				if v, ok := reg.Gauge(core.MetricQueueSize); ok {
-					if int(v) != len(waiting) {
-						fail("C12:queue-size-mismatch", "%s: queue_size=%d but %d callers are blocked (%v); history %v", when, int(v), len(waiting), waiting, history)
+					if int(v) != blocked {
+						fail("C12:queue-size-mismatch", "%s: queue_size=%d but %d callers are blocked (%v); history %v", when, int(v), blocked, waiting, history)
 					}
 					if int(v) > effBacklog {
 						fail("C12:backlog-over-bound", "%s: queue_size=%d exceeds the maximum %d", when, int(v), effBacklog)
 					}
-					if int(v) != len(waiting) {
-						fail("C20:queue-size-gauge", "%s: queue_size gauge=%d but %d callers are blocked", when, int(v), len(waiting))
+					if int(v) != blocked {
+						fail("C20:queue-size-gauge", "%s: queue_size gauge=%d but %d callers are blocked", when, int(v), blocked)
 					}
 				} else if !strings.Contains(cs.ctor.name, "WithDefaults") && !strings.Contains(cs.ctor.name, "NewFifoBlockingLimiter") {
 					fail("C20:queue-size-gauge", "%s: no queue_size gauge was registered", when)
@@ -327,7 +335,7 @@ func qdScenario(cs qdCase) *mc.Scenario {
 				}
 				if busy != nil {
 					if b := busy(); b != len(heldToks) {
-						fail("C12:busy-mismatch", "%s: strategy busy=%d but %d tokens are held; history %v", when, b, len(heldToks), history)
+						fail("C02:busy-mismatch", "%s: strategy busy=%d but %d tokens are held; history %v", when, b, len(heldToks), history) // (conservation is C02's subject: inactive in the driver runs of C11–C13, C20)
 					}
 				}
 			}
